@@ -38,6 +38,20 @@ def operation_classes(pm: ProgramModel) -> list[ClassInfo]:
     return sorted(out, key=lambda c: c.name)
 
 
+def _first_difference(a: Any, b: Any, path: str = "result") -> str:
+    if isinstance(a, list) and isinstance(b, list):
+        if len(a) != len(b):
+            return f"{path}: {len(a)} vs {len(b)} entries"
+        for i, (x, y) in enumerate(zip(a, b)):
+            if x != y:
+                return _first_difference(x, y, f"{path}[{i}]")
+    if isinstance(a, dict) and isinstance(b, dict):
+        for k in a:
+            if k in b and a[k] != b[k]:
+                return _first_difference(a[k], b[k], f"{path}[{k!r}]")
+    return f"{path}: {str(a)[:80]} vs {str(b)[:80]}"
+
+
 def canon(v: Any) -> Any:
     if isinstance(v, AObj):
         if v._cls == "Feature":
@@ -152,6 +166,24 @@ def check(pm: ProgramModel, ctx: Ctx) -> None:
             ctx.violation("C19-TOTAL", f"raises:{ci.name}", verdict[2] or where,
                           f"{ci.name}.execute raises on a well-formed model: {verdict[1]}")
             continue
+        # ONLY THE MODEL: a Python set has no defined iteration order (str hashes change with PYTHONHASHSEED from process
+        # to process); the evaluator imposes one, and the operation is decided under both extreme orders - a result
+        # that differs depends on the hash seed of the process, not on the model alone
+        try:
+            richd = rich_model(mb)
+            itd = Interp(pm, max_depth=60)
+            natives(itd)
+            itd.set_order = "desc"
+            opd = setup_op(pm, itd, ci, mb, richd)
+            itd.call(pm.method(ci, "execute"), [opd, richd])
+            rd = canon(itd.call(pm.method(ci, "get_result"), [opd]))
+            ctx.check(rd == r1, "C19-ONLYMODEL", f"set-order:{ci.name}", where,
+                      f"{ci.name}: the result is the same under both extreme set iteration orders ({itd.set_iterations} set "
+                      f"iterations on the path)",
+                      bad=f"{ci.name}: the result depends on the iteration order of a Python set, hence on PYTHONHASHSEED, not "
+                          f"on the model alone: {_first_difference(r1, rd)}")
+        except (AbsRaise, AbsMutation) as exc:
+            ctx.violation("C19-ONLYMODEL", f"set-order:{ci.name}", where, f"{ci.name} under the other set order: {exc.what}")
         # STATE --------------------------------------------------------------------------------
         try:
             it2 = Interp(pm, max_depth=60)
